@@ -149,7 +149,12 @@ impl PointCloud {
             if !n.is_element() {
                 continue;
             }
-            let ns = n.lookup_prefix(n.tag_name().namespace().unwrap_or_default());
+            // Only records from other namespaces than the prototype itself are extensions
+            let ns = if n.tag_name().namespace() == prototype_tag.tag_name().namespace() {
+                None
+            } else {
+                n.lookup_prefix(n.tag_name().namespace().unwrap_or_default())
+            };
             let tag = n.tag_name().name();
             let name = RecordName::from_namespace_and_tag_name(ns, tag)?;
             let data_type = RecordDataType::from_node(&n)?;
